@@ -9,8 +9,8 @@ import (
 
 	"asverif/internal/gf"
 
-	"golang.org/x/tools/go/cfg"
 	"asverif/internal/load"
+	"golang.org/x/tools/go/cfg"
 )
 
 func init() {
@@ -33,8 +33,14 @@ func runC02(c *Ctx) {
 	if r := c.ReconcileRoles(); r != nil {
 		c.walkCoversPartition(r, "C02.6-update-walk-reaches-down-to-partition")
 		c.updateWalkReached(r)
+		c.everyVacancyIsFilled(r, "C02.7-every-vacancy-is-filled")
 	}
 	c.adoptionTrigger()
+	// "exactly the desired ordinals": the ordinals the reconcile converges to are the helper's (C01.3)
+	c.skipWrap = true
+	c.helperChain()
+	c.boundComputation()
+	c.skipWrap = false
 }
 
 // updateWalkReached: once scaling is done, the update walk is entered unless the strategy is
